@@ -654,7 +654,6 @@ def run_dimwise(case):
         R = B = al = None
         try:
             with silent():
-                grid.set_grid(stripes, levels)
                 R = op.build_R_matrix_dimension_wise(stripes, levels)
                 B = op.calculate_B_dimension_wise(op.data, stripes, levels)
                 op.calculate_operation_dimension_wise(stripes, levels, cg)
